@@ -148,8 +148,16 @@ func usableLocalAddrs() int {
 	return n
 }
 
-func TestVerifC09E2E(t *testing.T) {
-	rec := verifkit.NewRecorder("C09", "e2e")
+func TestVerifC09E2E(t *testing.T) { e2eCases(t, "C09") }
+
+// TestVerifC03E2E: the same end-to-end runs read as C03 - with both peers healthy a session
+// is established through the real signaling server and the transfer of a valid tree
+// finishes on the receiving side in bounded time (the host's own verdict is not
+// observable from outside the process and is not judged).
+func TestVerifC03E2E(t *testing.T) { e2eCases(t, "C03") }
+
+func e2eCases(t *testing.T, prop string) {
+	rec := verifkit.NewRecorder(prop, "e2e")
 	defer rec.Flush()
 	thru := filepath.Join(os.Getenv("VERIF_BIN"), "thru")
 	if _, err := os.Stat(thru); err != nil {
